@@ -31,6 +31,9 @@ def depthFrom : Nat → Path → Option Nat
 /-- zip::read::ZipFile::enclosed_name is `Some` -/
 def enclosed (p : Path) : Bool := (depthFrom 0 p).isSome
 
+/-- what `Archive::explore` accepts since the zip-slip fixes: normal components only -/
+def plain (p : Path) : Bool := p.all fun c => match c with | .normal _ => true | _ => false
+
 /-- `Path::join`: an absolute right-hand side replaces the base -/
 def join (base rel : Path) : Path := if isAbsolute rel then rel else base ++ rel
 
@@ -91,5 +94,15 @@ theorem resolveOnto_enclosed (st : List (List Nat)) (extra : List (List Nat)) (p
         have hdl : (st ++ extra).dropLast = st ++ extra.dropLast := List.dropLast_append_of_ne_nil hne
         have := ih extra.dropLast d (by simp [hd]) (by simpa [depthFrom] using h)
         simpa [resolveOnto, hdl] using this
+
+theorem depthFrom_plain (d : Nat) (p : Path) (h : plain p = true) : (depthFrom d p).isSome := by
+  induction p generalizing d with
+  | nil => simp [depthFrom]
+  | cons c p ih =>
+    cases c <;> simp [plain] at h
+    simpa [depthFrom] using ih (d + 1) (by simpa [plain] using h)
+
+theorem enclosed_of_plain (p : Path) (h : plain p = true) : enclosed p = true :=
+  depthFrom_plain 0 p h
 
 end Grcov.Confine
